@@ -115,6 +115,22 @@ def curated():
                        maxlen=0, alphabet=[1, 2, 3, 4, 5, 6],
                        inputs=[[1, 2, 2, 2] + ([3] if 3 in tail else []) + [5], [1, 2, 2, 2] + ([3] if 3 in tail else []) + [4], [1, 2, 2, 2] + ([3] if 3 in tail else []) + [5, 5],
                                [1, 2, 2] + ([3] if 3 in tail else []) + [5], [1, 2, 2, 6] + ([3] if 3 in tail else []) + [5], [1, 2, 2, 2, 2] + ([3] if 3 in tail else []) + [4, 4]]))
+    # 23 an ambiguous split whose right part is translated through a pass-through rule (no abstract node), under an abstract node:
+    #    S : A B # s (0 1) ; A : a | a a ; B : C # 0 ; C : b | a b | D ; D : a b # 0      (the copy made for the second split must get
+    #    the translation of ITS right part)
+    c.append(entry("passsplit", [R(S, [A, B], 1, 1, [1, 2]), R(A, [1], 2, 1, [1]), R(A, [1, 1], 3, 2, [1, 2]), R(B, [C], 0, 0, [1]),
+                                 R(C, [2], 4, 1, [1]), R(C, [1, 2], 5, 3, [1, 2]), R(C, [D], 0, 0, [1]), R(D, [1, 2], 6, 1, [2])],
+                   maxlen=4, alphabet=[1, 2], inputs=[[1, 1, 2], [1, 1, 1, 2]]))
+    c.append(entry("passsplit3", [R(S, [A, B, C], 1, 1, [3, 1, 2]), R(A, [1], 2, 1, []), R(A, [1, 1], 3, 1, []), R(B, [D], 0, 0, [1]), R(D, [1], 4, 1, []),
+                                  R(D, [1, 1], 5, 2, []), R(C, [E], 0, 0, [1]), R(E, [2], 6, 1, []), R(E, [1, 2], 7, 1, [])],
+                   maxlen=0, alphabet=[1, 2], inputs=[[1, 1, 1, 2], [1, 1, 1, 1, 2], [1, 1, 2]]))
+    # 24 bracketed groups of two kinds, `error' only at the very beginning: a recovery goes all the way back and the parser then meets the
+    #    same (set, terminal) pairs again and again (results cached before the recovery must not come back):
+    #    S : h L | error L ; L : g P L | ; P : ( A ) | [ A ] ; A : t t          h=1 g=2 (=3 )=4 [=5 ]=6 t=7
+    c.append(entry("brackets", [R(S, [1, A], 1, 1, [2]), R(S, [0, A], 2, 1, [2]), R(A, [2, B, A], 3, 1, [2, 3]), R(A, []), R(B, [3, C, 4], 4, 1, [2]),
+                                R(B, [5, C, 6], 5, 1, [2]), R(C, [7, 7], 6, 1, [])], maxlen=0, alphabet=[1, 2, 3, 4, 5, 6, 7],
+                   inputs=[[1, 2, 3, 7, 7, 4], [1, 2, 3, 7, 7, 6, 2, 5, 7, 7, 6], [1, 2, 3, 7, 7, 6, 2, 5, 7, 7, 6, 2, 5, 7, 7, 4],
+                           [1, 2, 3, 7, 7, 7, 6, 2, 5, 7, 7, 6, 2, 5, 7, 7, 6], [1, 2, 5, 7, 4, 2, 3, 7, 7, 4, 2, 3, 7, 7, 4]]))
     return c
 
 
@@ -533,4 +549,21 @@ def depth_chain_family():
         allr = alts + rules
         allr = [dict(r, an=i + 1, c=1, t=list(range(1, len(r["r"]) + 1))) for i, r in enumerate(allr)]
         out.append(entry("chaindag-%d" % k, allr, maxlen=2, alphabet=[1, 2, 3, 4], inputs=[[1, 2 + i] for i in range(len(starts))]))
+    return out
+
+
+def bracket_fragment_inputs(seed, n):
+    """Inputs for the curated entry `brackets': h followed by 2-4 groups, most of them well formed, some with the wrong closer,
+    a missing or an extra t - the damaged group comes early, the same good groups follow repeatedly."""
+    rnd = random.Random(seed)
+    good = [[2, 3, 7, 7, 4], [2, 5, 7, 7, 6]]
+    bad = [[2, 3, 7, 7, 6], [2, 5, 7, 7, 4], [2, 3, 7, 4], [2, 5, 7, 7, 7, 6], [2, 7, 7, 4], [3, 7, 7, 4]]
+    out = []
+    for _ in range(n):
+        k = rnd.randint(2, 4)
+        groups = [rnd.choice(bad) if (i == 0 and rnd.random() < 0.7) or rnd.random() < 0.15 else rnd.choice(good) for i in range(k)]
+        if rnd.random() < 0.5:
+            g = rnd.choice(good)
+            groups += [g] * rnd.randint(1, 2)
+        out.append([1] + [t for g in groups for t in g])
     return out
